@@ -3159,7 +3159,8 @@ again:
 		if (i.v == INSVERB_UNK) {
 			/* an event we've got no instruction for, callers take
 			 * INSVERB_UNK for `need more data', so go on with
-			 * what's left in the buffer */
+			 * what's left in the buffer, with a clean slate */
+			i = (echs_instruc_t){INSVERB_UNK};
 			goto again;
 		}
 	}
